@@ -305,4 +305,48 @@ example : (match stage MaestroVerif.C08.demoSpec id with
         "/out/run/SIZE.20".toList, "/out/post".toList]
     | .error _ => false) = true := by decide +kernel
 
+/-- **the captured stdout / stderr of a locally run step lie directly inside the directory it was
+launched in**: for a working directory that is not empty and does not end in `/` and a script
+nickname without `/` (a `/` in it is the known finding C10-slash-in-label), both files are
+`<cwd>/<name>.<pid>.out|err` - one level below `cwd`, whatever else the name holds -/
+theorem C10_captured_output_inside (cwd name pid : Str) (hc : cwd ≠ []) (hl : cwd.getLast? ≠ some '/')
+    (hn : '/' ∉ name) (hp : '/' ∉ pid) :
+    (localCapturePaths cwd name pid).1 = cwd ++ ['/'] ++ (name ++ ['.'] ++ pid ++ ".out".toList) ∧
+    (localCapturePaths cwd name pid).2 = cwd ++ ['/'] ++ (name ++ ['.'] ++ pid ++ ".err".toList) ∧
+    '/' ∉ (name ++ ['.'] ++ pid ++ ".out".toList) ∧ '/' ∉ (name ++ ['.'] ++ pid ++ ".err".toList) := by
+  have hhead : ∀ sfx : Str, (name ++ ['.'] ++ pid ++ sfx).head? ≠ some '/' := by
+    intro sfx
+    cases name with
+    | nil => simp
+    | cons c cs =>
+      simp only [List.cons_append, List.head?_cons, ne_eq, Option.some.injEq]
+      intro e; subst e; exact hn (List.mem_cons_self ..)
+  have hcE : cwd.isEmpty = false := by cases cwd <;> simp_all
+  have hlB : (cwd.getLast? == some '/') = false := by
+    cases h : cwd.getLast? with
+    | none => rfl
+    | some c =>
+      rw [h] at hl
+      simp only [ne_eq, Option.some.injEq] at hl
+      simp [hl]
+  have hjoin : ∀ sfx : Str, pathJoin cwd (name ++ ['.'] ++ pid ++ sfx) = cwd ++ ['/'] ++ (name ++ ['.'] ++ pid ++ sfx) := by
+    intro sfx
+    unfold pathJoin
+    have : ((name ++ ['.'] ++ pid ++ sfx).head? == some '/') = false := by
+      cases h : (name ++ ['.'] ++ pid ++ sfx).head? with
+      | none => rfl
+      | some c =>
+        have := hhead sfx
+        rw [h] at this
+        simp only [ne_eq, Option.some.injEq] at this
+        simp [this]
+    simp only [this, Bool.false_eq_true, ↓reduceIte, hcE, hlB, Bool.or_self]
+  refine ⟨hjoin _, hjoin _, ?_, ?_⟩ <;>
+    · simp only [List.mem_append, List.mem_singleton, not_or]
+      exact ⟨⟨⟨hn, by decide⟩, hp⟩, by decide⟩
+
+example : (localCapturePaths "/out/run/X.1".toList "run_X.1".toList "4711".toList).1 =
+    "/out/run/X.1/run_X.1.4711.out".toList := by decide +kernel
+
+
 end MaestroVerif.C10
